@@ -3,6 +3,7 @@ package main
 // C04 — Required or negotiated security never degrades to plaintext.
 
 import (
+	"strings"
 	"fmt"
 	"go/constant"
 	"go/token"
@@ -176,6 +177,8 @@ func checkC04(w *World, r *Report) {
 	r.Rule("R04.5", "secure flag / TLS carrier correlation at every endpoint", 9)
 	r.Rule("R04.6", "Connect never rewrites the configured scheme: a reconnect of a +tls upstream is a TLS connect again", 5)
 	ruleSchemeImmutable(w, r, "R04.6")
+	r.Rule("R04.7", "the user's require-security option reaches every Upstream.Connect unchanged", 2)
+	c04MustSecurePlumbing(w, r)
 
 	sites, problems := findConnectSites(w)
 	for _, p := range problems {
@@ -1293,4 +1296,87 @@ func c04TlsOrError(w *World, h *ssa.Function, plain ssa.Value) string {
 		return ssaFuncKey(h) + " has no (connection, error) return"
 	}
 	return bad
+}
+
+// c04MustSecurePlumbing: R04.7 — --secure is stored into Upstreams.MustSecure as it is (a plain load of the
+// option field, not a combination with other options) and Upstreams hands exactly that field to Connect.
+func c04MustSecurePlumbing(w *World, r *Report) {
+	ups := w.Named("internal/client/upstream", "Upstreams")
+	must := fieldOf(ups, "MustSecure")
+	if must == nil {
+		r.Undecided("R04.7", "field:client/upstream.Upstreams.MustSecure", "-", "anchor unresolved")
+		return
+	}
+	isOptionLoad := func(v ssa.Value) (string, bool) {
+		u, ok := v.(*ssa.UnOp)
+		if !ok {
+			return "", false
+		}
+		fa, ok := u.X.(*ssa.FieldAddr)
+		if !ok {
+			return "", false
+		}
+		pt, ok := fa.X.Type().Underlying().(*types.Pointer)
+		if !ok {
+			return "", false
+		}
+		st, ok := pt.Elem().Underlying().(*types.Struct)
+		if !ok {
+			return "", false
+		}
+		tag := st.Tag(fa.Field)
+		return st.Field(fa.Field).Name(), strings.Contains(tag, `long:"secure"`)
+	}
+	nst := 0
+	bad := ""
+	for fn := range allModuleFuncs(w, w.SSA()) {
+		allInstrs(fn, func(in ssa.Instruction) {
+			st, ok := in.(*ssa.Store)
+			if !ok {
+				return
+			}
+			fa := asFieldAddr(st.Addr)
+			if fa == nil || fieldVarOf(fa) != must {
+				return
+			}
+			nst++
+			if name, ok := isOptionLoad(st.Val); !ok {
+				what := "an expression"
+				if name != "" {
+					what = "option " + name
+				}
+				if _, isB := st.Val.(*ssa.BinOp); isB {
+					what = "a combination of options"
+				}
+				if _, isP := st.Val.(*ssa.Phi); isP {
+					what = "a combination of options"
+				}
+				bad = fmt.Sprintf("%s: MustSecure is set from %s, not from the user's --secure option as it is: another option can switch the requirement off, and the per-carrier checks (mustSecure && !Secure()) are then never armed", w.Pos(st.Pos()), what)
+			}
+		})
+	}
+	r.Check(bad == "" && nst > 0, "R04.7", "field:client/upstream.Upstreams.MustSecure|stores", w.Pos(must.Pos()), fmt.Sprintf("%d store(s), each the plain value of the --secure option", nst), bad+mapStr(nst == 0, "MustSecure is never set from the command line option"))
+	// handed on unchanged
+	ui := w.Interface("internal/client/upstream", "Upstream")
+	ncall := 0
+	bad2 := ""
+	for fn := range allModuleFuncs(w, w.SSA()) {
+		if recvNamed(fnObj(fn)) != ups {
+			continue
+		}
+		for _, c := range callsIn(fn) {
+			if !c.Common().IsInvoke() || c.Common().Method.Name() != "Connect" || ui == nil {
+				continue
+			}
+			args := c.Common().Args
+			if len(args) < 2 {
+				continue
+			}
+			ncall++
+			if !isLoadOfField(args[len(args)-1], must) {
+				bad2 = fmt.Sprintf("%s: Upstream.Connect is not given Upstreams.MustSecure as it is", w.Pos(c.Pos()))
+			}
+		}
+	}
+	r.Check(bad2 == "" && ncall > 0, "R04.7", "field:client/upstream.Upstreams.MustSecure|handed-on", w.Pos(must.Pos()), fmt.Sprintf("%d Connect call(s) receive the field unchanged", ncall), bad2+mapStr(ncall == 0, "no Upstream.Connect call found in Upstreams"))
 }
